@@ -77,6 +77,38 @@ def _expand(func, args, kwargs):
     return like(a, np.broadcast_to(p, tuple(m.shape)))
 
 
+@handles("equal")
+def _equal(func, args, kwargs):
+    """torch.equal: same shape and all elements equal -> Python bool (forks on symbolic values)"""
+    a, b = args[0], args[1]
+    if tuple(a.shape) != tuple(b.shape):
+        return False
+    pa = P(a) if isinstance(a, Sym) else P(lift_t(a))
+    pb = P(b) if isinstance(b, Sym) else P(lift_t(b))
+    if pa.size == 0:
+        return True
+    conds = []
+    for x, y in zip(pa.reshape(-1), pb.reshape(-1)):
+        if z3.is_bool(x) or z3.is_bool(y):
+            conds.append(tobool(x) == tobool(y))
+        else:
+            conds.append(toreal(x) == toreal(y))
+    return decide_bool(z3.And(conds))
+
+
+def lift_t(t):
+    from .ops import lift_tensor
+    return lift_tensor(t) if t.dtype.is_floating_point else Sym.make(P(t), t.dtype)
+
+
+@handles("register_hook")
+def _register_hook(func, args, kwargs):
+    """a gradient hook has no effect on forward values; contract: returns a removable handle"""
+    class _Handle:
+        def remove(self): pass
+    return _Handle()
+
+
 @handles("broadcast_tensors")
 def _broadcast_tensors(func, args, kwargs):
     ts = list(args[0]) if len(args) == 1 and isinstance(args[0], (list, tuple)) else list(args)
